@@ -87,8 +87,11 @@ func (sll *LinuxSLL) DecodeFromBytes(data []byte, df gopacket.DecodeFeedback) er
 	sll.PacketType = LinuxSLLPacketType(binary.BigEndian.Uint16(data[0:2]))
 	sll.AddrType = binary.BigEndian.Uint16(data[2:4])
 	sll.AddrLen = binary.BigEndian.Uint16(data[4:6])
+	if int(sll.AddrLen)+6 > len(data) {
+		return errors.New("Linux SLL address length exceeds packet size")
+	}
 
-	sll.Addr = net.HardwareAddr(data[6 : sll.AddrLen+6])
+	sll.Addr = net.HardwareAddr(data[6 : int(sll.AddrLen)+6])
 	sll.EthernetType = EthernetType(binary.BigEndian.Uint16(data[14:16]))
 	sll.BaseLayer = BaseLayer{data[:16], data[16:]}
 
